@@ -290,8 +290,16 @@ func (t *scStringType) String() string {
 	return px.ToString2(t, None)
 }
 
+func (t *scStringType) SerializationString() string {
+	return t.String()
+}
+
 func (t *vcStringType) String() string {
 	return px.ToString2(t, None)
+}
+
+func (t *vcStringType) SerializationString() string {
+	return t.String()
 }
 
 func (t *stringType) Size() px.Type {
